@@ -157,7 +157,7 @@ func (g *Gen) accelPattern() *Tree {
 	}
 	set := func() *Tree { return Class(false, [2]int{'a', 'b'}) }
 	body := func() *Tree { g.bud = 4; return g.seq(2, 2) }
-	switch g.pick(18) {
+	switch g.pick(20) {
 	case 12, 13: // an iterated body: letter, loop, nullable loop - what follows a loop is the body's own start on the next iteration
 		ab := func() *Tree {
 			if g.chance(0.3) {
@@ -177,6 +177,17 @@ func (g *Gen) accelPattern() *Tree {
 			loop = Rep(inner, 2, 2, false)
 		}
 		return T("cat", loop, Lit([]int{'a', 'b', 'c'}[g.pick(3)]))
+	case 18, 19: // a single-character loop with a fixed count beyond the fixed-set expansion cut-off (20), then something selective
+		n := 19 + g.pick(6)
+		var unit *Tree = set()
+		if g.chance(0.3) {
+			unit = Lit(g.c.Letters[g.pick(min(3, len(g.c.Letters)))])
+		}
+		kids := []*Tree{Rep(unit, n, n, false), Lit('c')}
+		if g.chance(0.3) {
+			kids = append([]*Tree{set()}, kids...)
+		}
+		return T("cat", kids...)
 	case 16, 17: // a leading group repeated a fixed number of times beyond the analyzers' expansion cut-offs, then literal text
 		n := 4 + g.pick(3)
 		var unit *Tree
